@@ -27,9 +27,9 @@ CALLBACKS = ('landweber', 'cg', 'cg_normal', 'kaczmarz', 'mlem', 'osmlem',
              'broyden', 'nlcg', 'adam')
 
 TIERS = {
-    'C11': {'quick': {'runs': 9600, 'budget_s': 75, 'chunk': 50},
+    'C11': {'quick': {'runs': 16000, 'budget_s': 100, 'chunk': 50},
             'thorough': {'runs': 250000, 'budget_s': 1500, 'chunk': 200}},
-    'C12': {'quick': {'runs': 9000, 'budget_s': 80, 'chunk': 30, 'hang_s': 300},
+    'C12': {'quick': {'runs': 12000, 'budget_s': 100, 'chunk': 30, 'hang_s': 300},
             'thorough': {'runs': 300000, 'budget_s': 1800, 'chunk': 100,
                          'hang_s': 600}},
 }
